@@ -1698,15 +1698,28 @@ func (a *c8API) call(m reflect.Value, args ...reflect.Value) (out []reflect.Valu
 
 // drive: a random API program on wrapper w.
 func (a *c8API) drive(w reflect.Value, depth int) {
-	if a.budget <= 0 || depth > 9 {
+	t := w.Type()
+	if (a.budget <= 0 || depth > 9) && t.Name() != "ByteSlice" {
 		return
 	}
-	t := w.Type()
 	hasSetEmpty := map[string]bool{}
 	for i := 0; i < t.NumMethod(); i++ {
 		if n := t.Method(i).Name; strings.HasPrefix(n, "SetEmpty") {
 			hasSetEmpty[strings.TrimPrefix(n, "SetEmpty")] = true
 		}
+	}
+	// a bytes value: usually give it content (an API-built EMPTY bytes value is the open nil-bytes finding; keep it rare so that
+	// most API programs stay inside the canonical form and `prop apibuilt` is evaluated on them)
+	if t.Name() == "ByteSlice" {
+		if m := w.MethodByName("FromRaw"); m.IsValid() && a.r.IntN(100) != 0 {
+			b := make([]byte, 1+a.r.IntN(5))
+			for i := range b {
+				b[i] = byte(a.r.UintN(256))
+			}
+			a.budget--
+			a.call(m, reflect.ValueOf(b))
+		}
+		return
 	}
 	// a slice wrapper: AppendEmpty a few elements and drive each
 	if m := w.MethodByName("AppendEmpty"); m.IsValid() && m.Type().NumIn() == 0 {
